@@ -438,3 +438,14 @@ class FactoryBattery:
 
 
 BOUNDED = [FactoryBattery()]
+
+
+def LATE_UNITS():
+    # "stateful index projections": the inversion sampler walks the states through StatesManager; its contract (the next
+    # admissible index, each admissible state once) and the bounded enumeration battery live with the pairings (c14)
+    from contracts import c14
+    return [c14.StatesManagerNext()]
+
+
+from contracts.c14 import StatesEnumerationBounded as _SEB     # noqa: E402  (bounded: every admissible state exactly once)
+BOUNDED.append(_SEB())
